@@ -18,6 +18,35 @@ PROPS = {
     ),
 }
 
+PROPS["C03"] = dict(
+    prefixes=["c03_"],
+    level="model_checking",
+    bounds="keys (16/32 bytes), nonces (8/12/16 bytes), 16-word states, counters: all values, full width; round loop pinned for ROUNDS in {2,4} "
+           "(quick) and full 8-round block (thorough)",
+    outside="full-block equivalence for ROUNDS in {12,20} (only the double round on arbitrary states and the loop count for 2/4/8 are decided); "
+            "data lengths (C04)",
+    assumptions=["stub: core::arch::x86_64::_mm_add_epi32 -> lane-wise wrapping add (Kani 0.68 inserts a spurious overflow assertion into simd_add)"],
+    trusted=["harness/incrate/chacha_spec.rs transcription of RFC 8439 2.1-2.3 / Bernstein chacha-20080128"],
+    explanation="both ChaCha engines and the cipher contexts are compared with a transcription of the specification on symbolic keys, nonces, states and counters",
+    level_text="State layout for every key/nonce shape, the double round on an ARBITRARY 16-word state, feed-forward, serialisation, HChaCha extraction and "
+               "all three counter operations (so counter values next to 2^32-1 / 2^64-1 are ordinary states) are decided by CBMC at full width for the "
+               "SSE2 engine, the portable engine, and Salsa; context-level update/XChaCha/XSalsa wiring with the round function recorded.",
+    level_note="Stub _mm_add_epi32 (lane-wise wrapping add). ROUNDS/2 loop count is pinned by instantiations 2 and 4 (quick) and a full 8-round block "
+               "(thorough); 12- and 20-round full blocks are outside the solver's reach and rest on the uniform loop.",
+)
+PROPS["C16"] = dict(
+    prefixes=["c16_", "c03_ref_", "c03_sse2_", "c03_t_ref_", "c03_t_sse2_"],
+    level="model_checking",
+    bounds="ChaCha: all keys/nonces/states at full width, SSE2 engine vs portable engine compiled side by side",
+    outside="SSE4.1/AVX SHA-256 and AVX/AVX2 BLAKE2 code paths: Kani ignores -C target-feature, so those modules cannot be compiled for CBMC",
+    assumptions=["stub: _mm_add_epi32 -> lane-wise wrapping add"],
+    trusted=[],
+    explanation="differential harnesses SSE2 vs portable ChaCha engine; both also against the specification",
+    level_text="ChaCha SSE2 engine == portable engine on init (six key/nonce shapes), double round on arbitrary state, add_back, increment, increment64, "
+               "set_counter, output_bytes, output_ad_bytes: decided by CBMC for all inputs.",
+    level_note="SHA-256 SSE4.1/AVX and BLAKE2 AVX/AVX2 paths are OUTSIDE the claim (cannot be compiled under Kani: target-feature flags are ignored).",
+)
+
 _PENDING = "not yet built in this round; see DESIGN.md section 4 for the plan"
 NOT_APPLICABLE = {
     "C19": "property is about the program-counter trace of the optimised machine code; no installed engine can encode machine code or LLVM IR "
